@@ -197,6 +197,9 @@ def widen(old, new):
     return z
 
 
+# std methods that take `&mut self` of a Vec / slice / String but never change its length
+NON_RESIZING = ("index_mut", "get_mut", "iter_mut", "as_mut_slice", "as_mut", "last_mut", "first_mut", "sort", "sort_by",
+                "sort_by_key", "sort_unstable", "sort_unstable_by", "reverse", "swap", "fill", "deref_mut", "get_unchecked_mut")
 LEN_FNS = ("len",)
 # documented value ranges of chrono accessors (chrono::Datelike / Timelike / Weekday)
 FOREIGN_RANGES = {"month": (1, 12), "month0": (0, 11), "day": (1, 31), "day0": (0, 30), "ordinal": (1, 366), "hour": (0, 23),
@@ -474,10 +477,12 @@ class Analysis:
         for n in self.by_base.get(l, ()):
             z.forget(n)
 
-    def havoc_overlap(self, z, l, s):
+    def havoc_overlap(self, z, l, s, keep_len=False):
         for n in self.by_base.get(l, ()):
             t = self.info[n]["s"]
             if t.startswith(s) or s.startswith(t):
+                if keep_len and n.startswith("len:") and t == s:
+                    continue
                 z.forget(n)
 
     def havoc_pair(self, z, pair):
@@ -740,6 +745,7 @@ class Analysis:
                     if sp is not None:
                         src = sp
                 carried = []
+                carried_len = None
                 if src is not None and src["l"] != l:
                     rs = self._resolve(src)
                     ss = self._raw_str(rs)
@@ -749,7 +755,17 @@ class Analysis:
                             if n.startswith("m:") and i["s"].startswith((ss + ".", ss + "@")) and "(*" not in i["s"][len(ss):]:
                                 if z.row.get(n) or z.col.get(n):
                                     carried.append((n, i["s"][len(ss):], i["unsigned"]))
+                            elif n.startswith("len:") and i["s"] == ss and (z.row.get(n) or z.col.get(n)) and not place_proj(rs):
+                                carried_len = n
+                if carried_len is not None and l not in self.untracked:
+                    z.forget("$cl")
+                    z.assign("$cl", carried_len, 0)
                 self.havoc_base(z, l)
+                if carried_len is not None and l not in self.untracked:
+                    nl = self.len_term_of_place({"l": l})
+                    if nl:
+                        z.assign(nl, "$cl", 0)
+                    z.forget("$cl")
                 if l not in self.untracked:
                     for n, suffix, uns in carried:
                         spl = self.info[n].get("place")
@@ -999,6 +1015,14 @@ class Analysis:
                 i = self.info[lt]
                 pf = self._register("pfx:" + i["s"], i["base"], i["s"], set(i["pairs"]), True)
                 z.assign(pf, ZERO, n)
+        elif q == "contains" and len(args) == 2 and positive and ("RangeInclusive" in qn or "ops::Range" in qn):
+            rng = self._const_range(args[0])
+            xl = self._ref_local(args[1])
+            if rng is not None and xl is not None and xl not in self.untracked and self.b.locals[xl] in WIDTH:
+                name = self._register("_%d" % xl, xl, "_%d" % xl, set(), self.b.locals[xl] in UNSIGNED)
+                lo, hi = rng
+                z.add(ZERO, name, -lo)
+                z.add(name, ZERO, hi)
         elif q in ("eq", "ne") and len(args) == 2 and self._is_option_operand(args[0]):
             if q == "ne":
                 positive = not positive
@@ -1039,6 +1063,47 @@ class Analysis:
             if rv is None or rv["k"] not in ("use", "cast"):
                 return None
             cur = rv["o"]
+        return None
+
+    def _const_range(self, o):
+        """(lo, hi) inclusive bounds when operand o is a reference to a promoted constant `a..=b` / `a..b`"""
+        b = self.b
+        cur = o
+        for _ in range(5):
+            k = cur.get("k")
+            if k is not None:
+                if k.get("promoted") is None or self.F is None:
+                    return None
+                pb = self.F.body("%s::{promoted#%d}" % (b.path, k["promoted"]))
+                if pb is None:
+                    return None
+                for blk in pb.blocks:
+                    for st in blk["s"]:
+                        rv = st["rv"]
+                        if rv["k"] == "agg" and "Range" in str(rv.get("adt", "")):
+                            f = dict(zip(rv.get("fields") or [], rv["ops"]))
+                            lo, hi = const_int(f.get("start", {})), const_int(f.get("end", {}))
+                            if lo is None or hi is None:
+                                return None
+                            return (lo, hi) if "Inclusive" in rv["adt"] else (lo, hi - 1)
+                    t = blk["t"]
+                    if t["k"] == "call" and "RangeInclusive" in (pb.callee_q(t) or "") and (pb.callee_q(t) or "").endswith("::new") and len(t["args"]) == 2:
+                        lo, hi = const_int(t["args"][0]), const_int(t["args"][1])
+                        if lo is not None and hi is not None:
+                            return (lo, hi)
+                return None
+            p = op_place(cur)
+            if p is None:
+                return None
+            rv = self._single_def_rv(p["l"])
+            if rv is None:
+                return None
+            if rv["k"] in ("use", "cast"):
+                cur = rv["o"]
+            elif rv["k"] == "ref":
+                cur = {"c": {"l": rv["p"]["l"]}}
+            else:
+                return None
         return None
 
     def _is_option_operand(self, o):
@@ -1180,6 +1245,12 @@ class Analysis:
                     z.add(nm, x, cx)
                 z.add(ZERO, nm, 0)
                 has_mm = True
+        from_elem_n = None
+        if last == "from_elem" and len(t["args"]) == 2 and "vec" in q:
+            from_elem_n = self.lin(z, t["args"][1], "usize")
+            if from_elem_n is not None:
+                z.forget("$fe")
+                z.assign("$fe", from_elem_n[0], from_elem_n[1])
         find_len = None
         if last in ("find", "rfind") and ("str" in q) and t["args"]:
             find_len = self.len_term(t["args"][0])
@@ -1217,6 +1288,21 @@ class Analysis:
                         self._touch(z, pn)
                         z.relax_upper(st)
                     return
+        # Vec::push / VecDeque::push_back grow the length by exactly one
+        if last in ("push", "push_back") and len(t["args"]) == 2 and ("vec::Vec" in q or "VecDeque" in q):
+            ap = op_place(t["args"][0])
+            if ap is not None and not place_proj(ap) and ap["l"] in self.mutborrow:
+                tgt = self._resolve(self.mutborrow[ap["l"]])
+                lt = self.len_term_of_place(tgt) if tgt["l"] not in self.untracked else None
+                if lt is not None:
+                    self._touch(z, lt)
+                    z.assign(lt, lt, 1)
+                    vp = op_place(t["args"][1])
+                    if vp is not None and t["args"][1].get("m") is not None and not place_proj(vp) and not b.local_name(vp["l"]) and vp["l"] > b.nargs:
+                        self.havoc_base(z, vp["l"])
+                    if not place_proj(t["dest"]):
+                        self.havoc_base(z, t["dest"]["l"])
+                    return
         # effects
         if local_callee is not None:
             for pair in self.P.effects(local_callee):
@@ -1240,8 +1326,9 @@ class Analysis:
                             break
                     s = self._raw_str(cut)
                 if not whole_struct:
-                    self.havoc_overlap(z, tgt["l"], s)
-                    if any(e[0] == "*" for e in place_proj(tgt)):
+                    keep = local_callee is None and last in NON_RESIZING
+                    self.havoc_overlap(z, tgt["l"], s, keep_len=keep)
+                    if any(e[0] == "*" for e in place_proj(tgt)) and not keep:
                         pair = self._last_pair(tgt)
                         if pair is not None:
                             self.havoc_pair(z, pair)
@@ -1282,6 +1369,22 @@ class Analysis:
                 z.assign(name, "$mm", 0)
                 z.forget("$mm")
                 self._touch(z, name)
+        elif last in ("into_vec", "box_assume_init_into_vec_unsafe") and t["args"] and op_place(t["args"][0]) is not None and not place_proj(op_place(t["args"][0])):
+            import re as _re
+            m = _re.search(r"; (\d+)\]", b.locals[op_place(t["args"][0])["l"]])
+            lt = self.len_term_of_place({"l": l})
+            if m and lt:
+                z.assign(lt, ZERO, int(m.group(1)))
+        elif last == "new" and "vec::Vec" in q and not t["args"]:
+            lt = self.len_term_of_place({"l": l})
+            if lt:
+                z.assign(lt, ZERO, 0)
+        elif from_elem_n is not None:
+            lt = self.len_term_of_place({"l": l})
+            if lt:
+                z.assign(lt, "$fe", 0)
+                self._touch(z, lt)
+            z.forget("$fe")
         elif find_len and "Option<usize>" in ty:
             name = self._register("m:_%d@Some.0" % l, l, "_%d@Some.0" % l, set(), True)
             self._touch(z, name)
@@ -1496,6 +1599,9 @@ class Analysis:
                 return None
             if rv["k"] == "ref" and not place_proj(rv["p"]):
                 return rv["p"]["l"]
+            if rv["k"] == "ref" and len(place_proj(rv["p"])) == 1 and place_proj(rv["p"])[0][0] == "*":
+                cur = {"c": {"l": rv["p"]["l"]}}      # reborrow `&(*t)`
+                continue
             if rv["k"] in ("use", "cast"):
                 cur = rv["o"]
                 continue
@@ -1581,6 +1687,14 @@ class Analysis:
             return [(tg, zz, key) for tg, zz in base]
         if k == "call":
             d = t["dest"]
+            post = self.engine.post.get(b.callee(t)) if self.engine is not None else None
+            if post and not place_proj(d):
+                z = z.copy()
+                for i in post:
+                    a = self.lin(z, t["args"][i - 1], "usize") if i - 1 < len(t["args"]) else None
+                    z.forget("$post%d" % i)
+                    if a is not None:
+                        z.assign("$post%d" % i, a[0], a[1])
             key2 = key
             if not place_proj(d) and d["l"] in key:
                 key2 = dict(key)
@@ -1613,6 +1727,14 @@ class Analysis:
                 if common:
                     self._apply_summary(zz, common, amap, d)
             self._assume_after_call(zz, t)
+            if post and not place_proj(d):
+                lt = self.len_term_of_place({"l": d["l"]})
+                for i in post:
+                    pn = "$post%d" % i
+                    if lt and (zz.row.get(pn) or zz.col.get(pn)):
+                        self._touch(zz, lt)
+                        zz.add(pn, lt, 0)
+                    zz.forget(pn)
             return [] if zz.bottom else [(tg, zz, key2)]
         return [(tg, zz, key) for tg, zz in self.edges(bi, z)]
 
@@ -1853,6 +1975,7 @@ class Analysis:
         # final pass: states before terminators, invariant obligations
         self.inv_failures = []
         self.pre_failures = []
+        self.post_failures = []
         for bi in list(self.pstate_in):
             outs = []
             for kk, zin in self.pstate_in[bi].items():
@@ -1866,6 +1989,14 @@ class Analysis:
                 outs.append((key, z))
             self.state_at_term[bi] = outs
             t = b.blocks[bi]["t"]
+            if t["k"] == "return" and self.engine is not None and b.path in self.engine.post and not t.get("cleanup"):
+                lt = self.len_term_of_place({"l": 0})
+                for key, z in outs:
+                    if z.bottom:
+                        continue
+                    for i in self.engine.post[b.path]:
+                        if not (lt and z.entails("_%d" % i, lt, 0)):
+                            self.post_failures.append((bi, i))
             if t["k"] == "call" and self.engine is not None and b.callee(t) in self.engine.pre and not t.get("cleanup"):
                 amap = self._arg_places(t)
                 for key, z in outs:
@@ -2020,8 +2151,9 @@ def _spec_eq(a, c):
 class Engine:
     """Caches per-body analyses and callee summaries for one facts set."""
 
-    def __init__(self, facts, program, len_alias=None, invariants=None, max_blocks=1500, preconditions=None):
+    def __init__(self, facts, program, len_alias=None, invariants=None, max_blocks=1500, preconditions=None, postconditions=None):
         self.pre = preconditions or {}     # callee path -> [(xspec, yspec, c)] assumed at entry, checked at every call site
+        self.post = postconditions or {}   # callee path -> [arg index i]: len(returned Vec) >= argument i; checked at returns
         self.F = facts
         self.P = program
         self.len_alias = len_alias or {}
